@@ -8,7 +8,7 @@ import re, sys
 import warnings
 from typing import Union, Optional
 import numpy as np
-from math import inf, ceil
+from math import inf, ceil, gcd
 from fractions import Fraction
 import partitura.score as spt
 from partitura.utils import PathLike, get_document_name, symbolic_to_numeric_duration
@@ -786,8 +786,13 @@ class SplineParser(object):
             )
 
             symbolic_duration = copy.deepcopy(KERN_DURS[diff[min(list(diff.keys()))]])
-            symbolic_duration["actual_notes"] = int(dur // 4)
-            symbolic_duration["normal_notes"] = int(diff[min(list(diff.keys()))]) // 4
+            # the value n is a tuplet of the next smaller power of two x
+            # (n notes in the time of x): 12 -> 3:2 eighths, 6 -> 3:2
+            # quarters, 10 -> 5:4 eighths
+            base = int(diff[min(list(diff.keys()))])
+            common = gcd(int(dur), base)
+            symbolic_duration["actual_notes"] = int(dur) // common
+            symbolic_duration["normal_notes"] = base // common
         if dots:
             symbolic_duration["dots"] = dots
         if isinstance(dur, str):
